@@ -1,6 +1,7 @@
 import Afkak.ClientNet
 import Afkak.ClientTrace
 import Afkak.Monitor.C20
+import Afkak.ClientCompose
 /-! Open statements of C20 (full strength, not yet proved). -/
 namespace Afkak.Props.C20.Open
 open Afkak.ClientNet Afkak.ClientCache
@@ -18,7 +19,12 @@ def C20_model_traces_satisfy_monitor : Prop :=
 
 /-- `close()` aborts every bootstrap in progress: in the state after the `close` step no broker-unaware
     request is waiting for a bootstrap connection (the hypothesis `NoBootConn` of
-    `C20_no_connect_no_write_after_close`). -/
+    `C20_no_connect_no_write_after_close`).
+    PROVED for every close step that does not exhaust the interpreter's fuel
+    (`C20_close_leaves_no_bootstrap_pending_partial`, and `C20_no_connect_no_write_after_close_reachable` is the
+    hypothesis-free restatement built on it).  As written - no fuel proviso - the statement is false of the
+    fuel-bounded interpreter (a state with more than `fuel` = 100000 broker clients to close cuts the stack before
+    `cancelBoots` runs; a witness of that size cannot be evaluated), so it stays listed here. -/
 def C20_close_leaves_no_bootstrap_pending : Prop :=
   ∀ (cfg : Cfg) (evs : List (Env × Ev)) (env : Env) (o : Nat),
     let st := evs.foldl (fun s e => (step cfg s e.1 e.2).1) ({} : St)
@@ -31,5 +37,20 @@ def C20_close_leaves_no_bootstrap_pending : Prop :=
     are aggregated.  Counterexample and the part that holds: `AfkakProps/C20.lean`. -/
 def C20_close_awaits_bootstrap_connections : Prop :=
   ∀ (cfg : Cfg) (evs : List (Env × Ev)), (Afkak.Monitor.C20.run (traceOf cfg {} evs)).bootFails = []
+
+/-- In the COMPOSED model (client model × one broker-client model per broker client, `Afkak/ClientCompose.lean`):
+    when the step of the client's `close()` ends, EVERY broker-client component is closed (those still in
+    `self.clients` by this close, those popped by an earlier metadata refresh at the time) - for every reachable
+    composed state in which the client is open, the step not exhausting the fuel.  Needs the client-layer invariant
+    "a broker client that left `clients` has been told to close, or its `closeBc` is still on the action stack"
+    and the agreement of `cache.clients` with the `inClients` flags; not proved yet.  Evaluated on every real
+    full-stack run the composed model is driven with (`x-closed` after each close, harness/lib/client_compose.py).
+    Together with `C20_composed_no_connect_no_write_after_close` it gives: after `close()` NO broker client below
+    ever connects or writes. -/
+def C20_composed_close_closes_every_broker_client : Prop :=
+  ∀ (cfg : Afkak.ClientCompose.Cfg) (evs : List Afkak.ClientCompose.Ev) (env : Env) (o : Nat),
+    let s := Afkak.ClientCompose.run cfg {} evs
+    s.cl.closing = false → Ob.badOp "fuel" ∉ (step cfg.cl s.cl env (.close o)).2 →
+    ∀ x ∈ (Afkak.ClientCompose.step cfg s (.api env (.close o))).1.bcs, x.closed = true
 
 end Afkak.Props.C20.Open
